@@ -92,9 +92,18 @@ Section Hash.
   (** The denomination ibc-go's transfer keeper credits to the receiver (relay.go OnRecvPacket):
       returning tokens: the sender's prefix is stripped and the rest is the native denomination or the voucher of
       the remaining trace; otherwise the voucher of destPort/destChannel/denom. *)
+  (** relay.go, returning branch: `denom := unprefixedDenom; if ParseDenomTrace(unprefixedDenom).Path != "" { denom =
+      denomTrace.IBCDenom() }` — with an EMPTY path the unprefixed string itself is used (for "/x" that is "/x", not
+      the base "x" that DenomTrace.IBCDenom() would give) *)
+  Definition unescrow_denom (un : bytes) : bytes :=
+    match split_last_slash un with
+    | Some (_ :: _, _) => trace_ibc_denom un
+    | _ => un
+    end.
+
   Definition received_denom (p : packet) (d : ftpd) : bytes :=
     if receiver_chain_is_source (pk_sport p) (pk_schan p) (fd_denom d)
-    then trace_ibc_denom (skipn (length (denom_prefix (pk_sport p) (pk_schan p))) (fd_denom d))
+    then unescrow_denom (skipn (length (denom_prefix (pk_sport p) (pk_schan p))) (fd_denom d))
     else trace_ibc_denom (denom_prefix (pk_dport p) (pk_dchan p) ++ fd_denom d).
 End Hash.
 
@@ -231,6 +240,17 @@ Section Middleware.
                     | _ => Ok (st', Some (sha256 (ack_bytes a)))
                     end
         end
+    end.
+
+  (** A history of MsgRecvPacket transactions: each is delivered on its own (baseapp: a failing or panicking message
+      changes nothing and stores nothing); the trace records the state each packet met and what core did with it. *)
+  Fixpoint core_history (cb : state -> packet -> outcome (state * option ack * option hook_path))
+             (st : state) (pkts : list packet) : list (state * packet * outcome (state * option bytes)) :=
+    match pkts with
+    | [] => []
+    | p :: t =>
+        let r := core_recv cb st p in
+        (st, p, r) :: core_history cb (match r with Ok (st', _) => st' | _ => st end) t
     end.
 
   (** IBCMiddleware.OnAcknowledgementPacket: the wrapped application's callback, then Keeper.OnAcknowledgementPacket
